@@ -601,7 +601,7 @@ fn main() {
         // 3. random histories
         // `fork`: Rng::new(s) and Rng::new(s+1) are the same SplitMix stream shifted by one draw
         let mut rng = Rng::new(args.seed).fork();
-        let n_rand = if args.thorough() { 250_000 } else { 30_000 };
+        let n_rand = if args.thorough() { 150_000 } else { 30_000 };
         for _ in 0..n_rand {
             cases.push(random_case(&mut rng));
         }
